@@ -31,7 +31,9 @@ LOCAL OnReason(e, m) ==
     ELSE IF e.eq THEN V(m, "different environments reported as equal")
     ELSE IF named # differs \/ Len(e.named) # Cardinality(named) \/ Len(e.unknown) # 0
          THEN V(m, "the rebuild reason does not name exactly the parts of the environment that differ")
-    ELSE IF { e.diffkeys[i] : i \in DOMAIN e.diffkeys } # differs
+    \* a part that is only written differently ("rewritten": 1 and 1.0) differs, without an edit
+    ELSE IF { e.diffkeys[i] : i \in DOMAIN e.diffkeys } #
+            { EnvParts[i] : i \in { j \in 1..Len(EnvParts) : e.classes[j] \notin {"same", "rewritten"} } }
          THEN V(m, "the environment diff does not have an edit exactly for the parts that differ")
     ELSE m
 Mon(e, m0) == LET m1 == IF e.ev = "Diff" THEN OnDiff(e, m0) ELSE IF e.ev = "Reason" THEN OnReason(e, m0) ELSE m0
